@@ -1,6 +1,7 @@
 """C17 - settings queries are mutually consistent."""
 from .. import obs as O
-from .common import Contract, ansi_values, history, run_cases, tier_sizes, safe_obs, settings_texts
+from .common import (Contract, ansi_values, history, run_cases, tier_sizes, safe_obs, settings_texts, small_scope_values,
+                     small_scope_on, SS_CODES)
 from ..gen import gen_bound, gen_range, gen_settings
 
 PROP = 'C17'
@@ -162,6 +163,25 @@ def drive(ctx, mon, tier, only_case=None):
     sz = tier_sizes(tier)
 
     def body(rng, ex, case):
+        if case == 0:
+            # bounded-exhaustive part: every small-scope value x every selection of 1-2 codes x every start/end in
+            # -5..5/None x both directions
+            m = small_scope_on(ctx, tier)
+            sels = [[c] for c in SS_CODES] + [['31', '1'], ['34', '31'], ['1', '1']]
+            bounds = [None, -5, -4, -2, 0, 1, 2, 3, 4, 5]
+            nv = 0
+            for v, _ in small_scope_values(L, m, ctx.shard, ctx.extra.get('nshards', 1)):
+                nv += 1
+                for i in range(-2, 7):
+                    v.ansi_settings_at(i)
+                    v.settings_at(i)
+                for sel in sels:
+                    for a in bounds:
+                        for b in bounds:
+                            for rev in (False, True):
+                                v.find_settings(sel, a if a is not None else 0, b, rev)
+            ctx.extra['n_small_scope_values'] = nv
+            return
         profile = 'mixed' if rng.random() < 0.25 else 'wf'
         history(L, rng, ex, rng.randint(1, sz['nops']), sz['maxlen'], profile, WEIGHTS)
         for v in ansi_values(L, ex)[-5:]:
